@@ -40,6 +40,7 @@ def judge (spec : String) (params : List Nat) (ops : List (OpRec GOp GRet)) : Op
   | "mapc", _ => some (linCheck mapConc ops)
   | "mapr", _ => some (linCheck mapRelaxed ops)
   | "bag", _ => some (linCheck (bag []) ops)
+  | "pool", kind :: cap :: initq => some (linCheck (pool kind cap (initq.map Int.ofNat)) ops)
   | "lock", [n] => some (linCheck (lockSpec false n) ops)
   | "rlock", [n] => some (linCheck (lockSpec true n) ops)
   | _, _ => none
